@@ -3,6 +3,7 @@
 // unbounded sleep-set search must see every outcome the bounded search sees.
 #include "explore.hpp"
 #include "vfc.hpp"
+#include <chrono>
 #include <condition_variable>
 #include <future>
 #include <mutex>
@@ -144,6 +145,22 @@ static void toy_promise_never(std::string &obs) {
   obs = "done";
 }
 
+// 8. a timed wait whose result is ignored: the deadline may pass while the predicate is still false (injected like a spurious wake-up)
+template <bool CHECKED> static void toy_timedwait(std::string &obs) {
+  std::mutex m; std::condition_variable cv; bool ready = false; int seen = -1;
+  vs_begin();
+  std::thread w([&] {
+    std::unique_lock<std::mutex> l(m);
+    if (CHECKED) { while (!cv.wait_for(l, std::chrono::seconds(10), [&] { return ready; })) {} }
+    else cv.wait_for(l, std::chrono::seconds(10), [&] { return ready; });
+    seen = ready ? 1 : 0;
+  });
+  std::thread s([&] { std::lock_guard<std::mutex> l(m); ready = true; cv.notify_all(); });
+  w.join(); s.join();
+  vs_end();
+  obs = "seen=" + std::to_string(seen);
+}
+
 static int fails = 0;
 static void expect(bool cond, const std::string &name, const std::string &detail) {
   J().s("t", "selftest").s("name", name).bo("ok", cond).s("detail", detail).emit();
@@ -181,6 +198,9 @@ int main() {
   r = explore(toy_async<true>, 2, false, 0); expect(r.obs.size() >= 2 && !r.deadlock, "std::async result read before get(): both outcomes and the race are seen", show(r));
   r = explore(toy_promise, 2, false, 0); expect(r.obs.size() == 1 && r.obs.count("ok:got=5") && !r.deadlock, "promise/future hand-over: waiter parks on the futex word and is released", show(r));
   r = explore(toy_promise_never, 1, false, 0); expect(r.deadlock, "a future that is never fulfilled is reported as a deadlock", show(r));
+  r = explore(toy_timedwait<false>, 1, false, 1); expect(r.obs.count("ok:seen=0") && r.obs.count("ok:seen=1"), "wait_for whose result is ignored: the expired deadline with a false predicate is explored", show(r));
+  r = explore(toy_timedwait<true>, 1, false, 1); expect(r.obs.size() == 1 && r.obs.count("ok:seen=1"), "wait_for in a loop: an injected deadline is harmless", show(r));
+  r = explore(toy_timedwait<false>, 1, false, 0); expect(r.obs.size() == 1 && r.obs.count("ok:seen=1"), "without the injection budget a timed wait behaves like a wait", show(r));
   J().s("t", "selftest-summary").n("failed", fails).emit();
   return fails ? 1 : 0;
 }
